@@ -89,7 +89,7 @@ pub struct Run {
     known_hits: Mutex<BTreeMap<String, (String, u64, Value)>>,
     violations: Mutex<Vec<Violation>>,
     pub violated: AtomicBool,
-    tolerant: Mutex<BTreeMap<String, u64>>,
+    tolerant: std::sync::RwLock<Vec<(String, AtomicU64)>>,
 }
 
 impl Run {
@@ -124,7 +124,7 @@ impl Run {
             known_hits: Mutex::new(BTreeMap::new()),
             violations: Mutex::new(vec![]),
             violated: AtomicBool::new(false),
-            tolerant: Mutex::new(BTreeMap::new()),
+            tolerant: std::sync::RwLock::new(Vec::new()),
         }
     }
     pub fn elapsed(&self) -> f64 {
@@ -181,8 +181,25 @@ impl Run {
             a.push(what.to_string());
         }
     }
+    /// Count entries into a tolerant zone.  Hot path: a read lock and one atomic add (a mutex here
+    /// made 16 threads spend most of their time in futex calls).
     pub fn tolerant(&self, zone: &str, n: u64) {
-        *self.tolerant.lock().unwrap().entry(zone.to_string()).or_insert(0) += n;
+        if n == 0 {
+            return;
+        }
+        {
+            let r = self.tolerant.read().unwrap();
+            if let Some((_, c)) = r.iter().find(|(k, _)| k == zone) {
+                c.fetch_add(n, Ordering::Relaxed);
+                return;
+            }
+        }
+        let mut w = self.tolerant.write().unwrap();
+        if let Some((_, c)) = w.iter().find(|(k, _)| k == zone) {
+            c.fetch_add(n, Ordering::Relaxed);
+        } else {
+            w.push((zone.to_string(), AtomicU64::new(n)));
+        }
     }
 
     /// Report a discrepancy.  Returns true if it is fatal (not a listed known finding).
@@ -254,7 +271,7 @@ impl Run {
             cs.insert(k.to_string(), json!(v.load(Ordering::Relaxed)));
         }
         cov.insert("counters".into(), Value::Object(cs));
-        let tol = self.tolerant.lock().unwrap().clone();
+        let tol: BTreeMap<String, u64> = self.tolerant.read().unwrap().iter().map(|(k, v)| (k.clone(), v.load(Ordering::Relaxed))).collect();
         if !tol.is_empty() {
             cov.insert("tolerant_zone_entries".into(), json!(tol));
         }
